@@ -96,12 +96,18 @@ package circuitbreaker
 //@   ensures [C03.rate.failure.value] c.occupiedBits > 0 ==> real(result) * real(c.occupiedBits) <= 100.0 * real(c.failures) + 0.51 * real(c.occupiedBits) && real(result) * real(c.occupiedBits) >= 100.0 * real(c.failures) - 0.51 * real(c.occupiedBits)
 //@   ensures [C03.rate.failure.extremes] c.occupiedBits > 0 ==> (c.failures == 0 ==> result == 0) && (c.failures == c.occupiedBits ==> result == 100)
 //@   modifies nothing
+//@   witness failures := c.failures
+//@   witness occupied := c.occupiedBits
+//@   witness size := c.size
 //@ func (*countingStats).successRate
 //@   requires c != nil && c.successes <= c.occupiedBits && c.occupiedBits <= 1073741824
 //@   ensures [C03.rate.success.zero] c.occupiedBits == 0 ==> result == 0
 //@   ensures [C03.rate.success.range] result <= 100
 //@   ensures [C03.rate.success.value] c.occupiedBits > 0 ==> real(result) * real(c.occupiedBits) <= 100.0 * real(c.successes) + 0.51 * real(c.occupiedBits) && real(result) * real(c.occupiedBits) >= 100.0 * real(c.successes) - 0.51 * real(c.occupiedBits)
 //@   modifies nothing
+//@   witness successes := c.successes
+//@   witness occupied := c.occupiedBits
+//@   witness size := c.size
 
 //@ func (*countingStats).reset
 //@   requires c != nil && c.bitSet != nil && c.size >= 1 && c.size <= 1073741824
